@@ -20,7 +20,7 @@ impl Txt for CrateName { open spec fn tv(&self) -> Seq<char> { self@ } open spec
 impl<'a> NameSet<'a> { pub uninterp spec fn names(&self) -> Seq<Seq<char>>; }
 pub type ScopedCrateTypes<'a> = ::std::collections::BTreeMap<&'a CrateName, NameSet<'a>>;
 pub struct TypeScript { pub _p: u8 }
-pub struct Kotlin { pub package: String }
+pub struct Kotlin { pub package: String, pub prefix: String }
 
 // BTreeMap by-value iteration (T4, as in unit write): ordered entries as a sequence
 #[verifier::external_type_specification]
@@ -55,10 +55,11 @@ fn names_vec<'a>(ty: NameSet<'a>) -> (r: Vec<&'a str>)
 pub open spec fn module_of<'a>(e: (&'a CrateName, NameSet<'a>)) -> Seq<char> { e.0@ }
 pub open spec fn names_of<'a>(e: (&'a CrateName, NameSet<'a>)) -> Seq<Seq<char>> { e.1.names() }
 /// Kotlin: one statement per name
-pub open spec fn kt_lines(pre: Seq<char>, pkg: Seq<char>, dot1: Seq<char>, module: Seq<char>, dot2: Seq<char>, names: Seq<Seq<char>>, n: int) -> Seq<Seq<char>>
+/// (C09 meets C14 here: the name imported is the name the other module defines it under - with the configured prefix)
+pub open spec fn kt_lines(pre: Seq<char>, pkg: Seq<char>, dot1: Seq<char>, module: Seq<char>, dot2: Seq<char>, pfx: Seq<char>, names: Seq<Seq<char>>, n: int) -> Seq<Seq<char>>
     decreases n
 {
-    if n <= 0 { Seq::empty() } else { kt_lines(pre, pkg, dot1, module, dot2, names, n - 1).push(pre + pkg + dot1 + module + dot2 + names[n - 1] + lf()) }
+    if n <= 0 { Seq::empty() } else { kt_lines(pre, pkg, dot1, module, dot2, pfx, names, n - 1).push(pre + pkg + dot1 + module + dot2 + pfx + names[n - 1] + lf()) }
 }
 '''
 
@@ -120,32 +121,33 @@ KT = [
     rep(A.text('&mut dyn Write'), '&mut WriteSink', tag='T7'),
     ins(A.ret(), '(r: ', where='before'), ins(A.ret(), ')', where='after'),
     ins(A.sig(), '''
-        ensures /*C14: one import statement per name of every entry of the table, in order, naming the package, exactly the entry's module and that name*/
+        ensures /*C14: one import statement per name of every entry of the table, in order, naming the package, exactly the entry's module and that name with the configured prefix*/
             r is Ok ==> exists|blocks: Seq<Seq<char>>| #[trigger] blocks.len() == bt_entries(imports).len()
                 && (forall|k: int| 0 <= k < blocks.len() ==> #[trigger] blocks[k] ==
-                        flatten(kt_lines(wfmt_kt_write_imports_0_p0(), old(self).package@, wfmt_kt_write_imports_0_p1(), module_of(bt_entries(imports)[k]), wfmt_kt_write_imports_0_p2(),
+                        flatten(kt_lines(wfmt_kt_write_imports_0_p0(), old(self).package@, wfmt_kt_write_imports_0_p1(), module_of(bt_entries(imports)[k]), wfmt_kt_write_imports_0_p2(), old(self).prefix@,
                                          names_of(bt_entries(imports)[k]), names_of(bt_entries(imports)[k]).len() as int)))
                 && final(w)@ == old(w)@ + flatten(blocks) + lf(),
-            final(self).package == old(self).package,
+            final(self).package == old(self).package, final(self).prefix == old(self).prefix,
 ''', cid='kt_write_imports.contract'),
     rep(A.text('for (path, ty) in imports'), '''let ghost entries = bt_entries(imports);
         let ghost w0 = w@;
         let ghost mut blocks: Seq<Seq<char>> = Seq::empty();
         let ghost pk0 = self.package@;
+        let ghost px0 = self.prefix@;
         let mut it__ = bt_into_iter(imports);
         let ghost mut done: int = 0;
         proof { assert(entries.skip(0) =~= entries); assert(flatten(blocks) =~= Seq::<char>::empty()); assert(w@ =~= w0 + flatten(blocks)); }
         loop''', tag='T4', note='BTreeMap by-value iteration has no vstd ghost iterator'),
     ins(A.loop(0), '''
             invariant_except_break
-                0 <= done <= entries.len(), bt_rest(it__) == entries.skip(done), blocks.len() == done, self.package@ == pk0, pk0 == old(self).package@, self.package == old(self).package,
+                0 <= done <= entries.len(), bt_rest(it__) == entries.skip(done), blocks.len() == done, self.package@ == pk0, pk0 == old(self).package@, self.package == old(self).package, self.prefix@ == px0, px0 == old(self).prefix@, self.prefix == old(self).prefix,
                 forall|k: int| 0 <= k < done ==> #[trigger] blocks[k] ==
-                        flatten(kt_lines(wfmt_kt_write_imports_0_p0(), pk0, wfmt_kt_write_imports_0_p1(), module_of(entries[k]), wfmt_kt_write_imports_0_p2(), names_of(entries[k]), names_of(entries[k]).len() as int)),
+                        flatten(kt_lines(wfmt_kt_write_imports_0_p0(), pk0, wfmt_kt_write_imports_0_p1(), module_of(entries[k]), wfmt_kt_write_imports_0_p2(), px0, names_of(entries[k]), names_of(entries[k]).len() as int)),
                 w@ == w0 + flatten(blocks),
             ensures
-                done == entries.len(), blocks.len() == done, pk0 == old(self).package@, self.package == old(self).package,
+                done == entries.len(), blocks.len() == done, pk0 == old(self).package@, self.package == old(self).package, px0 == old(self).prefix@, self.prefix == old(self).prefix,
                 forall|k: int| 0 <= k < done ==> #[trigger] blocks[k] ==
-                        flatten(kt_lines(wfmt_kt_write_imports_0_p0(), pk0, wfmt_kt_write_imports_0_p1(), module_of(entries[k]), wfmt_kt_write_imports_0_p2(), names_of(entries[k]), names_of(entries[k]).len() as int)),
+                        flatten(kt_lines(wfmt_kt_write_imports_0_p0(), pk0, wfmt_kt_write_imports_0_p1(), module_of(entries[k]), wfmt_kt_write_imports_0_p2(), px0, names_of(entries[k]), names_of(entries[k]).len() as int)),
                 w@ == w0 + flatten(blocks),
             decreases entries.len() - done
     ''', cid='kt_write_imports.invariant'),
@@ -154,14 +156,14 @@ KT = [
             proof { assert(entries.skip(done)[0] == entries[done]); assert(entries.skip(done).drop_first() =~= entries.skip(done + 1)); }
             let ghost wa = w@;
             let ghost nm = ty.names();
-            let ghost (a, pk, b, md, c) = (wfmt_kt_write_imports_0_p0(), self.package@, wfmt_kt_write_imports_0_p1(), path@, wfmt_kt_write_imports_0_p2());''', tag='T4'),
+            let ghost (a, pk, b, md, c, px) = (wfmt_kt_write_imports_0_p0(), self.package@, wfmt_kt_write_imports_0_p1(), path@, wfmt_kt_write_imports_0_p2(), self.prefix@);''', tag='T4'),
     rep(A.text('for t in ty'), '''let names__ = names_vec(ty);
-            proof { assert(flatten(kt_lines(a, pk, b, md, c, nm, 0)) =~= Seq::<char>::empty()); }
+            proof { assert(flatten(kt_lines(a, pk, b, md, c, px, nm, 0)) =~= Seq::<char>::empty()); }
             for t in itn: names__.iter()
                 invariant
                     names__@.len() == nm.len(), forall|j: int| 0 <= j < names__@.len() ==> (#[trigger] names__@[j])@ == nm[j],
-                    a == wfmt_kt_write_imports_0_p0() && pk == self.package@ && b == wfmt_kt_write_imports_0_p1() && c == wfmt_kt_write_imports_0_p2() && md == path@,
-                    w@ == wa + flatten(kt_lines(a, pk, b, md, c, nm, itn.index@ as int)),
+                    a == wfmt_kt_write_imports_0_p0() && pk == self.package@ && b == wfmt_kt_write_imports_0_p1() && c == wfmt_kt_write_imports_0_p2() && md == path@ && px == self.prefix@,
+                    w@ == wa + flatten(kt_lines(a, pk, b, md, c, px, nm, itn.index@ as int)),
             ''', tag='T4', note='BTreeSet by-value iteration as iteration over the vector of its elements'),
     ins(A.loop_body(1), '''
                 let ghost wb = w@;
@@ -169,16 +171,16 @@ KT = [
     ins(A.loop_end(1), '''
                 proof {
                     reveal_strlit("\\n");
-                    wfmt_kt_write_imports_0_p3_chars();
-                    let line = a + pk + b + md + c + nm[itn.index@ as int] + lf();
+                    wfmt_kt_write_imports_0_p3_chars(); wfmt_kt_write_imports_0_p4_chars();
+                    let line = a + pk + b + md + c + px + nm[itn.index@ as int] + lf();
                     assert(w@ =~= wb + line);
-                    lemma_flatten_push(kt_lines(a, pk, b, md, c, nm, itn.index@ as int), line);
-                    assert(kt_lines(a, pk, b, md, c, nm, itn.index@ as int + 1) =~= kt_lines(a, pk, b, md, c, nm, itn.index@ as int).push(line));
+                    lemma_flatten_push(kt_lines(a, pk, b, md, c, px, nm, itn.index@ as int), line);
+                    assert(kt_lines(a, pk, b, md, c, px, nm, itn.index@ as int + 1) =~= kt_lines(a, pk, b, md, c, px, nm, itn.index@ as int).push(line));
                 }
     ''', tag='T4'),
     ins(A.loop_end(0), '''
             proof {
-                let blk = flatten(kt_lines(a, pk, b, md, c, nm, nm.len() as int));
+                let blk = flatten(kt_lines(a, pk, b, md, c, px, nm, nm.len() as int));
                 assert(w@ =~= wa + blk);
                 lemma_flatten_push(blocks, blk);
                 blocks = blocks.push(blk);
